@@ -176,7 +176,7 @@ def gen_roller(rng):
 
 def cases(rng, tier):
     out = []
-    n = 1500 if tier == "quick" else 25000
+    n = 1500 if tier == "quick" else 18000
     for ci in range(n):
         big = rng.chance(2, 25)
         trig = gen_trigger(rng, big)
